@@ -765,6 +765,12 @@ func (e *Env) call(x *ECall) TV {
 		md, _, _ := mapComps(c, mt)
 		comp := c.comp(e.st, md, "(Array Ref (Array "+c.sortOf(mt.Key())+" Bool))")
 		return TV{T: sel(comp, m.T), SetElem: mt.Key()}
+	case "bitand": // bitand(a, b): Go's a & b on integers (uninterpreted, the same symbol the code uses)
+		if !c.declared["bitop_and"] {
+			c.declared["bitop_and"] = true
+			c.emit("(declare-fun bitop_and (Int Int) Int)")
+		}
+		return TV{T: "(bitop_and " + arg(0).T + " " + arg(1).T + ")", Ty: types.Typ[types.Int]}
 	case "sameArray": // sameArray(s, t): the two slices share a backing array
 		return TV{T: "(= (sref " + arg(0).T + ") (sref " + arg(1).T + "))", Ty: B}
 	case "alive": // alive(ref): allocated
